@@ -154,15 +154,16 @@ theorem Sim2.nil (c : Ctx) (n nS : Nat) (prog : List Insn) (lo hi : Nat) (bal cm
     (fun hp => by simpa using hf (by simpa using hp))
   simpa using this
 
-/-- sequencing: `f` owns `[lo, mid)`, `g` owns `[mid, hi)` -/
-theorem Sim2.seq {c : Ctx} {n nS : Nat} {prog : List Insn} {lo mid hi : Nat} {bal cm : Bool} {f g : St → List St} {a m b : Nat}
-    (h1 : Sim2 c n nS prog lo mid bal false f a m) (h2 : Sim2 c n nS prog mid hi bal cm g m b) (hk : KeepsGood c n f)
+/-- sequencing, general form: `f` owns `[lo, mid)`, `g` owns `[mid, hi)`; `f` is claimed for the
+    continuation class `cm1`, which must contain "then `g`, then a continuation of class `cm`" -/
+theorem Sim2.seqGen {c : Ctx} {n nS : Nat} {prog : List Insn} {lo mid hi : Nat} {bal cm cm1 : Bool} {f g : St → List St} {a m b : Nat}
+    (h1 : Sim2 c n nS prog lo mid bal cm1 f a m) (h2 : Sim2 c n nS prog mid hi bal cm g m b) (hk : KeepsGood c n f)
+    (hcls : ∀ succ, SuccOK cm succ → SuccOK cm1 (fun r acc => (g r).foldr succ acc))
     (hle1 : lo ≤ mid) (hle2 : mid ≤ hi) (ham : a ≤ m) (hmb : m ≤ b) :
     Sim2 c n nS prog lo hi bal cm (fun st => (f st).flatMap g) a b := by
   intro st aux astk X succ failA hg hl hsucc hf hs
   rw [foldr_flatMap]
-  apply h1 st aux astk X (fun r acc => (g r).foldr succ acc) failA hg hl
-    (by simpa [SuccOK] using hsucc.par.foldr g)
+  apply h1 st aux astk X (fun r acc => (g r).foldr succ acc) failA hg hl (hcls succ hsucc)
     (fun hp => hf (fun acc => by rw [foldr_flatMap]; exact hp acc))
   intro l1 r1 l2 hsp1 hpass1 aux1 junk1 S1 acc1 hag1 hb1 hS1 hf1
   have hl1 : n + aux1.length = nS := by rw [hag1.1]; exact hl
@@ -185,6 +186,31 @@ theorem Sim2.seq {c : Ctx} {n nS : Nat} {prog : List Insn} {lo mid hi : Nat} {ba
       · have := hS1 br h; omega)
     (fun hp => by simpa [List.append_assoc] using hf2 hp)
   simpa [List.append_assoc] using this
+
+/-- sequencing: `f` owns `[lo, mid)`, `g` owns `[mid, hi)` -/
+theorem Sim2.seq {c : Ctx} {n nS : Nat} {prog : List Insn} {lo mid hi : Nat} {bal cm : Bool} {f g : St → List St} {a m b : Nat}
+    (h1 : Sim2 c n nS prog lo mid bal false f a m) (h2 : Sim2 c n nS prog mid hi bal cm g m b) (hk : KeepsGood c n f)
+    (hle1 : lo ≤ mid) (hle2 : mid ≤ hi) (ham : a ≤ m) (hmb : m ≤ b) :
+    Sim2 c n nS prog lo hi bal cm (fun st => (f st).flatMap g) a b :=
+  Sim2.seqGen h1 h2 hk (fun succ hsucc => by simpa [SuccOK] using hsucc.par.foldr g) hle1 hle2 ham hmb
+
+/-- sequencing with a second part that always has exactly one result (a `Save`, a `Jmp`): the
+    continuation class is kept, so the first part may be code that is only correct under committing
+    continuations -/
+theorem Sim2.seqTotal {c : Ctx} {n nS : Nat} {prog : List Insn} {lo mid hi : Nat} {bal cm : Bool} {f : St → List St} {g1 : St → St} {a m b : Nat}
+    (h1 : Sim2 c n nS prog lo mid bal cm f a m) (h2 : Sim2 c n nS prog mid hi bal cm (fun st => [g1 st]) m b)
+    (hk : KeepsGood c n f) (hle1 : lo ≤ mid) (hle2 : mid ≤ hi) (ham : a ≤ m) (hmb : m ≤ b) :
+    Sim2 c n nS prog lo hi bal cm (fun st => (f st).flatMap fun r => [g1 r]) a b :=
+  Sim2.seqGen h1 h2 hk (fun succ hsucc => by
+    cases cm with
+    | true =>
+      have hc : Commit succ := by simpa [SuccOK] using hsucc
+      have : Commit (fun r acc => succ (g1 r) acc) := fun r acc acc' => hc (g1 r) acc acc'
+      simpa [SuccOK] using this
+    | false =>
+      have hp : Par succ := by simpa [SuccOK] using hsucc
+      have : Par (fun r acc => succ (g1 r) acc) := fun r => hp (g1 r)
+      simpa [SuccOK] using this) hle1 hle2 ham hmb
 
 /-- a single always-succeeding instruction that maps the capture state and leaves the rest alone -/
 theorem Sim2.step1 {c : Ctx} {n nS : Nat} {prog : List Insn} {lo hi : Nat} {bal cm : Bool} {a : Nat} (upd : St → St)
